@@ -649,8 +649,6 @@ def oracle(c, o):
                 elif drift > len(mine) and one_to_one:
                     bad("drift_literal", i, "account (%d,%d): |delegation %d - sum of per-lock values %d| = %d > %d currently delegated locks"
                         % (d, vv, a["tokens"], per_lock, drift, len(mine)), cause="rounding residue of locks refreshed together and since undelegated or topped up")
-            if a["bal"] != 0:
-                bad("dangling_mint", i, "intermediary account (%d,%d) holds %d freshly minted uosmo" % (d, vv, a["bal"]))
     return v
 
 
@@ -687,6 +685,8 @@ def run_cases(cases, model_ok, out, tag, hist=None):
         if nontrivial(c, o):
             out.nontrivial.add(json.dumps(c, sort_keys=True))
         if hist is not None:
+            hist["repo_invariant_rows"] = hist.get("repo_invariant_rows", 0) + len(o.get("inv") or [])
+            hist["repo_invariant_broken_rows"] = hist.get("repo_invariant_broken_rows", 0) + sum(o.get("inv") or [])
             for op, row in zip(c["ops"], o["flat"][1:]):
                 hist["ops"][op["k"]] = hist["ops"].get(op["k"], 0) + 1
                 hist["codes"][str(row[0])] = hist["codes"].get(str(row[0]), 0) + 1
@@ -735,6 +735,7 @@ def correspond(tier, seed, model_ok):
     out.samples = [{"nval": c["nval"], "denoms": c["denoms"], "rf": c["rf"], "unb": c["unb"], "vtok": c["vtok"], "ops": c["ops"][:8]} for c in cases[1:4]]
     out.distribution = {"op_kinds": hist["ops"], "result_codes": hist["codes"], "unclassified_errors": hist.get("unclassified", {}),
                         "ops_total": sum(hist["ops"].values()), "corpus_cases": len(corpus),
+                        "rows_where_the_repos_own_TotalSuperfluidDelegationInvariant_reports_broken": "%d of %d" % (hist.get("repo_invariant_broken_rows", 0), hist.get("repo_invariant_rows", 0)),
                         "risk_factors": {k: sum(1 for c in cases if c["rf"] == k) for k in sorted(set(RFS))},
                         "cases_with_cl_denom": sum(1 for c in cases if any(d["kind"] == "cl" for d in c["denoms"])),
                         "cases_with_rate_ne_1": sum(1 for c in cases if any(x not in ("", "0") for x in c["vtok"]))}
